@@ -134,6 +134,11 @@ def run_case(case):
                     p.__exit__(None, None, None)
             elif op[0] == "call":
                 ret = ENV[op[1]](op[2])
+            elif op[0] == "callno":
+                # a call made under no_overlay(): nobody hears it, and afterwards everything is as before
+                from ptera.overlay import no_overlay
+                with no_overlay():
+                    ret = ENV[op[1]](op[2])
             else:
                 raise ValueError(op)
         except Exception as ex:
